@@ -549,13 +549,14 @@ IfInit ==
     /\ g = [pre |-> <<AllSyms[i]>>, pend |-> Holes(AllSyms[i], 0)]
     /\ ph = IF Arity(AllSyms[i]) = 0 THEN "done" ELSE "gen"
 IfNext ==
-  /\ ph = "gen"
-  /\ \E i \in 1..Len(AllSyms) :
-       LET s == AllSyms[i]
-           d == Head(g.pend)
-       IN /\ SymOk(s, d)
-          /\ g' = [pre |-> Append(g.pre, s), pend |-> Holes(s, d) \o Tail(g.pend)]
-          /\ ph' = IF g'.pend = <<>> THEN "done" ELSE "gen"
+  \/ /\ ph = "ready" /\ ph' = "done" /\ g' = g       \* a step of its own: in simulation only the chosen tree is evaluated
+  \/ /\ ph = "gen"
+     /\ \E i \in 1..Len(AllSyms) :
+          LET s == AllSyms[i]
+              d == Head(g.pend)
+          IN /\ SymOk(s, d)
+             /\ g' = [pre |-> Append(g.pre, s), pend |-> Holes(s, d) \o Tail(g.pend)]
+             /\ ph' = IF g'.pend = <<>> THEN "ready" ELSE "gen"
 RECURSIVE ParseAt(_, _)
 ParseAt(pre, i) ==                \* [e |-> tree, n |-> index after it]
   LET s == pre[i] IN
